@@ -176,6 +176,11 @@ def run(ctx):
                     args[f.name] = (H.op.Immediate(v) if k == "int32" else H.op.Address(v) if k == "addr"
                                     else H.values_for(k, rng, 0)[0])
                 instrs.append(c(**args))
+        # debug markers (emitted by the NV transpiler with debug=True) serialise to nothing
+        from netqasm.lang.instr.base import DebugInstruction
+        if rng.random() < 0.4:
+            for _k in range(rng.randrange(1, 4)):
+                instrs.insert(rng.randrange(len(instrs) + 1), DebugInstruction(text="dbg %d" % _k))
         app = rng.randrange(65536)
         steps = []
         for _round in range(3):
@@ -190,23 +195,25 @@ def run(ctx):
                 ver = list(H.Subroutine(instructions=[], app_id=0).netqasm_version)
                 want = ver + [app & 255, app >> 8]
                 for i in instrs:
-                    want += ref_bytes(i)
+                    if not isinstance(i, DebugInstruction):
+                        want += ref_bytes(i)
             except Exception:
                 want = None
             if rb != want:
                 res.failures.append({"what": "bytes(Subroutine) differ from the published layout of its current "
                                              "instructions", "kf": None,
-                                     "input": {"is": [H.instr_to_json(i) for i in instrs], "app": app,
+                                     "input": {"is": [("debug-marker" if isinstance(i, DebugInstruction) else
+                                                       H.instr_to_json(i)) for i in instrs], "app": app,
                                                "edits_before": steps}})
                 break
             # edit in place and go round again
-            cands = [o for i in instrs for o in i.operands]
+            cands = [o for i in instrs if not isinstance(i, DebugInstruction) for o in i.operands]
             rng.shuffle(cands)
             for o in cands:
                 if H.mutate_operand_in_place(o, rng):
                     steps.append("edit-operand-in-place")
                     break
-            i = rng.choice(instrs)
+            i = rng.choice([x for x in instrs if not isinstance(x, DebugInstruction)])
             fs = H.T.operand_fields(type(i))
             k = rng.randrange(len(fs))
             setattr(i, fs[k].name, rng.choice(H.values_for(H.shape_of(type(i))[k], rng, 1)))
